@@ -296,7 +296,7 @@ func checkC20A(sc *SplineCase) (o *Outcome) {
 				k2 = false
 			}
 		}
-		if k2 {
+		if k2 && !strictKnown() {
 			o.class("K2-excursion-through-ignored-crossings(known finding, not failed)")
 			o.NonTrivial = false
 			return o
@@ -486,7 +486,14 @@ func checkC20B(pc *PolyCase) (o *Outcome) {
 		// "returns, and returns finite numbers" is. A first version of this check asserted a relative residual here, which
 		// is meaningless next to a root at 0 and was dropped (DESIGN.md, C20).
 		o.class("K4-ill-conditioned-leading-coefficient(known finding, accuracy not judged)")
-		_ = ivtRoot
+		if strictKnown() {
+			// replay of a listed K4 input: judged like any other cubic (a real root within 1e-4(1+|g|) of every returned g)
+			for _, g := range got {
+				if tol := 1e-4 * (1 + math.Abs(g)); eval(g) != 0 && !ivtRoot(g, tol) {
+					return o.failf("solve3(%v) returned %v, but the polynomial has no real root within %g of it", pc.Coeff, g, tol)
+				}
+			}
+		}
 		return o
 	}
 	// below: either a well-conditioned polynomial of its true degree, or |a| < 1e-7 (then the solver documents that it
